@@ -303,6 +303,8 @@ func SpecMatch(pattern string, hasWild bool, s string) bool {
 // the cache entry and the registered subscribers never changes.
 //@ func (*ResourceSubscription).Unsubscribe
 //@   requires rs != nil && rs.e != nil && rs.e.cache != nil && sub != nil
+//@   ensures[C09,C11] len(rs.e.queue) == old(len(rs.e.queue)) + 1
+//@   assigns rs.e.queue, elems(rs.e.queue)
 //@   safety[C15]
 //@ closure (*ResourceSubscription).Unsubscribe#1
 //@   requires rs != nil && rs.e != nil && rs.e.cache != nil && sub != nil
